@@ -284,7 +284,7 @@ class Driver:
             self.ftable.append((u, v, e, r))
             return r
         for (a, b, c, r) in flt['table']:
-            if _same(a, u) and _same(b, v) and _same(c, e):
+            if _same(self.val(a), u) and _same(self.val(b), v) and _same(self.val(c), e):
                 return r
         return flt.get('default', True)
 
